@@ -1287,7 +1287,7 @@ func runC14(c *fw.Ctx) {
 			for i := 1 + (k/40)%18; i > 0; i-- {
 				pow *= 10
 			}
-			base := []int{pow, 1 << 31, 1 << 32, 1 << 53, 1 << 62, pow}[(k/40+c.Block)%6]
+			base := []int{pow, clipInt(1 << 31), clipInt(1 << 32), clipInt(1 << 53), clipInt(1 << 62), pow}[(k/40+c.Block)%6]
 			if k%80 == 7 && base > 1000000 {
 				base = []int{100, 1000, 10000, 100000, 1000000}[(k/80)%5] // files that are really built
 			}
